@@ -336,7 +336,8 @@ def project_runstate(run):
                         "writerExec": writer, "methodRestart": mrestart, "pstate": pstate, "edited": edited,
                         "stopping": bool(e.get("stopping", False)), "failedAny": failed_any,
                         "stopLine": stoplike > 0})
-            stoplike = max(0, stoplike - 1)
+            if not e["started"]:
+                stoplike = 0                 # (a latch for the rest of the run: the run may be paused or held for any time in between)
             if not e["started"]:
                 edited = False
             failed, w1, writer, scope, mrestart, failed_any = [], [], False, False, False, False
@@ -358,6 +359,7 @@ def project_commands(run):
     ended_blocks = set()
     resets, item_resets = {}, {}          # how often a line was reset; the count when a run-log item was created for it
     forced_nodes = set()                  # lines with an accepted force
+    reset_now = set()                     # lines reset since the last tick end (their alarm / macro body runs again)
 
     def ancestors(nid):
         out, cur, seen = [], nodes.get(nid, {}).get("parent", ""), set()
@@ -409,6 +411,7 @@ def project_commands(run):
                 started_nodes.discard(n)
                 if e["old"] == "True" and e["ctx"] != "edit":
                     resets[n] = resets.get(n, 0) + 1
+                    reset_now.add(n)
             if e["f"] == "activated" and e["new"] == "True":
                 proceeded.add(n)
             if e["f"] == "completed" and e["new"] == "True" and e["ins"] == "Wait":
@@ -461,6 +464,8 @@ def project_commands(run):
                         "runId": e["runId"], "err": e["err"], "inst": e["inst"], "simulated": e["simulated"],
                         "bodyStarted": sorted(set(body_started)), "proceededEver": sorted(proceeded), "firstLine": first_line,
                         # forced lines whose block has ended since: nothing in an ended block proceeds (C04 / C05)
-                        "forcedDead": sorted(n for n in forced_nodes if set(ancestors(n)) & ended_blocks)})
+                        "forcedDead": sorted(n for n in forced_nodes if set(ancestors(n)) & ended_blocks),
+                        "resetNow": sorted(reset_now)})
+            reset_now = set()
             body_started, first_line = [], ""
     return {"id": run["id"], "ev": out}
